@@ -227,9 +227,9 @@ class MonoTimer(object):
             duration in seconds (fractional)
         """
         self.retro = True if retro else False
-        self.start = None
-        self.stop = None
         self.latest = time.time()  # last time checked current time
+        self.start = self.latest  # numbers so .update can shift them if retrograded
+        self.stop = self.latest
         self.restart(start=self.latest, duration=duration)
 
     def update(self):
